@@ -259,5 +259,5 @@ func TestC08(t *testing.T) {
 			}
 		}
 	}
-	c08Part.Run(s, hx.PerShard(hx.Pick(24000, 600000)))
+	c08Part.Run(s, hx.PerShard(hx.Pick(240000, 2400000)))
 }
